@@ -108,3 +108,12 @@ Theorem C04_nonvacuous :
   (send_in ex_H0 10 20 [1; 2]%N /\ must0 3 6 12 25 ex_others0 = true /\ count 1 7 (visited (exec (labels ex_H0))) = 0%nat) /\
   check_program (mini mini_good) mini_good ["Send"; "RemoveNode"]%string [] [] = [].
 Proof. exact conc_nonvacuous. Qed.
+
+(* the check-then-act rule (LockLang.cta, re-evaluated per run in Obl_C04.v as broker_no_check_then_act) rejects the
+   "look up under the read lock, create under the write lock without looking again" shape -- which the lockset discipline
+   alone accepts -- and accepts the re-reading one *)
+Theorem C04_nonvacuous_check_then_act :
+  flat_complaints (cta_program (mini [("Create", create_stale)]%string) [("Create", create_stale)]%string) = [("Create", KCheckThenAct, "Broker.nodes")]%string /\
+  cta_program (mini [("Create", create_fresh)]%string) [("Create", create_fresh)]%string = [] /\
+  check_program (mini [("Create", create_stale)]%string) [("Create", create_stale)]%string ["Create"]%string [] [] = [].
+Proof. exact (conj cta_rejected (conj cta_accepted cta_stale_still_guarded)). Qed.
